@@ -25,6 +25,19 @@ import (
 	"golang.org/x/tools/go/ssa"
 )
 
+// concurrencySafeTypes: types of other packages whose documentation promises safe concurrent use of one value.
+var concurrencySafeTypes = map[string]string{
+	"cbor.EncMode":   "fxamacker/cbor: EncMode is immutable and safe for concurrent use",
+	"cbor.DecMode":   "fxamacker/cbor: DecMode is immutable and safe for concurrent use",
+	"*sync.Pool":     "sync: safe for concurrent use",
+	"*sync.Mutex":    "sync: a lock",
+	"*sync.RWMutex":  "sync: a lock",
+	"*sync.Once":     "sync: safe for concurrent use",
+	"*sync.Map":      "sync: safe for concurrent use",
+	"*atomic.Uint64": "sync/atomic",
+	"*atomic.Int64":  "sync/atomic",
+}
+
 func typeHoldsReference(t types.Type, depth int) bool {
 	if depth > 4 {
 		return false
@@ -189,6 +202,10 @@ func ruleG7(p *Prog, r *Report) {
 							continue // in-package type: decided below by its methods
 						}
 						if _, isFunc := v.Type().Underlying().(*types.Signature); isFunc {
+							continue
+						}
+						if why, ok := concurrencySafeTypes[typeString(v.Type())]; ok {
+							_ = why
 							continue
 						}
 						problem = "method " + calleeName(x) + " of an object of another package (" + typeString(v.Type()) + ") is called through the variable at " + p.InstrPos(x) + ": nothing proves it safe for unsynchronised concurrent use"
